@@ -56,6 +56,12 @@ func rewritePkg(ov *overlay, gen, kind, pkg string) {
 		rewriteVorder(ov, gen, pkg)
 	case "vgo":
 		rewriteVgo(ov, gen, pkg)
+	case "vtime":
+		kv := strings.SplitN(pkg, "=", 2)
+		if len(kv) != 2 {
+			die("vtime needs <pkgdir>=<file>[+<file>]")
+		}
+		rewriteVtime(ov, gen, kv[0], strings.Split(kv[1], "+"))
 	case "fakec":
 		kv := strings.SplitN(pkg, "=", 2)
 		if len(kv) != 2 {
@@ -634,4 +640,57 @@ func rewriteVgo(ov *overlay, gen, pkg string) {
 		n += len(sp)
 	}
 	fmt.Fprintf(os.Stderr, "mkoverlay: vgo %s: %d go statements / receives rewritten\n", pkg, n)
+}
+
+// rewriteVtime: in the listed files of pkg every call time.NewTimer(...) and time.Now() becomes a
+// call of package verif_h/vtime (a virtual clock owned by the harness). Only the selector is
+// replaced (same-line splice); the import is added on the line of the package clause. The files
+// must not shadow the identifier `time`.
+func rewriteVtime(ov *overlay, gen, pkg string, files []string) {
+	vpath := modulePath() + "/verif_h/vtime"
+	n := 0
+	for _, name := range files {
+		rel := filepath.Join(pkg, name)
+		abs := filepath.Join(*repo, rel)
+		from := src(ov, rel)
+		b, err := os.ReadFile(from)
+		must(err)
+		fset := token.NewFileSet()
+		f, err := parser.ParseFile(fset, from, b, 0)
+		if err != nil {
+			die("vtime: parse %s: %v", from, err)
+		}
+		var sp []splice
+		ast.Inspect(f, func(nd ast.Node) bool {
+			call, ok := nd.(*ast.CallExpr)
+			if !ok {
+				return true
+			}
+			sel, ok := call.Fun.(*ast.SelectorExpr)
+			if !ok {
+				return true
+			}
+			id, ok := sel.X.(*ast.Ident)
+			if !ok || id.Name != "time" || (sel.Sel.Name != "NewTimer" && sel.Sel.Name != "Now") {
+				return true
+			}
+			sp = append(sp, splice{fset.Position(id.Pos()).Offset, fset.Position(id.End()).Offset, "vtime__"})
+			return true
+		})
+		if len(sp) == 0 {
+			die("vtime: %s has no time.NewTimer / time.Now call", rel)
+		}
+		sort.Slice(sp, func(i, j int) bool { return sp[i].from > sp[j].from })
+		for _, s := range sp {
+			b = append(append(append([]byte{}, b[:s.from]...), s.text...), b[s.to:]...)
+		}
+		pkgEnd := fset.Position(f.Name.End()).Offset
+		b = append(append(append([]byte{}, b[:pkgEnd]...), []byte("; import vtime__ \""+vpath+"\"")...), b[pkgEnd:]...)
+		dst := filepath.Join(gen, "rewrite", rel)
+		must(os.MkdirAll(filepath.Dir(dst), 0o755))
+		must(os.WriteFile(dst, b, 0o644))
+		ov.Replace[abs] = dst
+		n += len(sp)
+	}
+	fmt.Fprintf(os.Stderr, "mkoverlay: vtime %s: %d calls rewritten\n", pkg, n)
 }
